@@ -1,8 +1,17 @@
 // h_C10.cpp — harness for C10 (control interface used from another thread): built with ThreadSanitizer.
-// One case = one filter (kind kf: KF-based GaussianFilter; kind sis: bootstrap SIS), booted, with the
-// controlling thread (this thread) issuing the command list of the case while the filtering thread runs.
-//   case <id> kf|sis exo=0|1 cap=<max filtering steps> np=<particles>
+// One case = one filter, booted, with the controlling thread (this thread) issuing the command list of the
+// case while the filtering thread runs.
+//   case <id> <kind> model=lti|wna exo=0|1 log=0|1 rwp=0|1 inner=kf|ukf cap=<max filtering steps> np=<particles>
+//     kind: kf    KFPrediction + KFCorrection                       (GaussianFilter subclass)
+//           ukf   UKFPrediction(StateModel) + UKFCorrection(MeasurementModel)        (generic, augmented)
+//           ukfa  UKFPrediction(AdditiveStateModel) + UKFCorrection(AdditiveMeasurementModel)
+//           sukf  KFPrediction + SUKFCorrection
+//           sis   SIS with DrawParticles + BootstrapCorrection
+//           gpf   SIS with GPFPrediction(inner) + GPFCorrection(inner)
+//     model=wna: WhiteNoiseAcceleration (OneD) instead of an LTI state model (kf, ukfa, sukf, sis, gpf)
+//     exo=1: an exogenous model is attached; log=1: enable_log() before boot; rwp=1: ResamplingWithPrior
 //   word cmds  run reset reboot teardown step isrun skip:<what>:<0|1> sleep:<microseconds> yield wait
+//              enlog dislog   (Logger switches: NOT part of the property's command list; probes only)
 //   end
 // Every case ends with teardown + wait (added if the list does not).  ThreadSanitizer reports go to stderr;
 // the plug-in (props/C10.py) reads them.  Output: final step number, commands executed, max step seen.
@@ -11,6 +20,8 @@
 #include <BayesFilters/BootstrapCorrection.h>
 #include <BayesFilters/DrawParticles.h>
 #include <BayesFilters/ExogenousModel.h>
+#include <BayesFilters/GPFCorrection.h>
+#include <BayesFilters/GPFPrediction.h>
 #include <BayesFilters/Gaussian.h>
 #include <BayesFilters/GaussianFilter.h>
 #include <BayesFilters/GaussianLikelihood.h>
@@ -21,9 +32,15 @@
 #include <BayesFilters/ParticleSet.h>
 #include <BayesFilters/ParticleSetInitialization.h>
 #include <BayesFilters/Resampling.h>
+#include <BayesFilters/ResamplingWithPrior.h>
 #include <BayesFilters/SIS.h>
+#include <BayesFilters/SUKFCorrection.h>
+#include <BayesFilters/UKFCorrection.h>
+#include <BayesFilters/UKFPrediction.h>
+#include <BayesFilters/WhiteNoiseAcceleration.h>
 #include <chrono>
 #include <thread>
+#include <unistd.h>
 
 using namespace bfl;
 using namespace Eigen;
@@ -43,6 +60,29 @@ struct State : public LTIStateModel {
     State(const MatrixXd& F, const MatrixXd& Q) : LTIStateModel(F, Q), n_(F.rows()) {}
     VectorDescription getStateDescription() override { return VectorDescription(n_); }
     MatrixXd getNoiseSample(const std::size_t num) override { return MatrixXd::Constant(n_, num, 0.001); }
+    VectorXd getTransitionProbability(const Ref<const MatrixXd>& prev, const Ref<const MatrixXd>& cur) override {
+        MatrixXd d = cur - getStateTransitionMatrix() * prev;
+        VectorXd p(cur.cols());
+        for (long j = 0; j < cur.cols(); j++) p(j) = 0.1 + 0.3 * std::exp(-0.5 * d.col(j).squaredNorm());
+        return p;
+    }
+};
+
+// generic (non-additive) state model: motion() takes the state augmented with the noise
+struct GenState : public StateModel {
+    MatrixXd F_, Q_;
+    GenState(const MatrixXd& F, const MatrixXd& Q) : F_(F), Q_(Q) {}
+    void propagate(const Ref<const MatrixXd>& cur, Ref<MatrixXd> prop) override { prop = F_ * cur.topRows(F_.rows()); }
+    void motion(const Ref<const MatrixXd>& cur, Ref<MatrixXd> mot) override {
+        if (is_skipping()) { mot = cur.topRows(F_.rows()); return; }
+        mot = F_ * cur.topRows(F_.rows());
+        if (cur.rows() == F_.rows() + Q_.rows()) mot += cur.bottomRows(Q_.rows());
+    }
+    bool setProperty(const std::string&) override { return false; }
+    VectorDescription getInputDescription() override { return VectorDescription(F_.rows(), 0, Q_.rows()); }
+    VectorDescription getStateDescription() override { return VectorDescription(F_.rows()); }
+    MatrixXd getNoiseCovarianceMatrix() override { return Q_; }
+    MatrixXd getNoiseSample(const std::size_t num) override { return MatrixXd::Constant(F_.rows(), num, 0.001); }
 };
 
 struct Meas : public LTIMeasurementModel {
@@ -51,6 +91,26 @@ struct Meas : public LTIMeasurementModel {
     bool freeze(const Data&) override { return true; }
     std::pair<bool, Data> measure(const Data&) const override { return std::make_pair(true, Data(y_)); }
     VectorDescription getInputDescription() const override { return VectorDescription(H_.cols()); }
+    VectorDescription getMeasurementDescription() const override { return VectorDescription(H_.rows()); }
+};
+
+// generic measurement model: predictedMeasure() takes the state augmented with the measurement noise
+struct GenMeas : public MeasurementModel {
+    MatrixXd H_, R_, y_;
+    GenMeas(const MatrixXd& H, const MatrixXd& R) : H_(H), R_(R), y_(MatrixXd::Constant(H.rows(), 1, 0.3)) {}
+    bool freeze(const Data&) override { return true; }
+    std::pair<bool, Data> measure(const Data&) const override { return std::make_pair(true, Data(y_)); }
+    std::pair<bool, Data> predictedMeasure(const Ref<const MatrixXd>& cur) const override {
+        MatrixXd p = H_ * cur.topRows(H_.cols());
+        if (cur.rows() == H_.cols() + R_.rows()) p += cur.bottomRows(R_.rows());
+        return std::make_pair(true, Data(p));
+    }
+    std::pair<bool, Data> innovation(const Data& predicted, const Data& measured) const override {
+        MatrixXd d = any::any_cast<MatrixXd>(measured).replicate(1, any::any_cast<MatrixXd>(predicted).cols()) - any::any_cast<MatrixXd>(predicted);
+        return std::make_pair(true, Data(d));
+    }
+    std::pair<bool, MatrixXd> getNoiseCovarianceMatrix() const override { return std::make_pair(true, R_); }
+    VectorDescription getInputDescription() const override { return VectorDescription(H_.cols(), 0, R_.rows()); }
     VectorDescription getMeasurementDescription() const override { return VectorDescription(H_.rows()); }
 };
 
@@ -68,20 +128,36 @@ MatrixXd Q2() { MatrixXd Q(2, 2); Q << 0.01, 0.0, 0.0, 0.02; return Q; }
 MatrixXd H2() { MatrixXd H(1, 2); H << 1.0, 0.0; return H; }
 MatrixXd R1() { MatrixXd R(1, 1); R << 0.5; return R; }
 
-template <typename SM> std::unique_ptr<SM> make_state(bool exo) {
-    std::unique_ptr<State> s(new State(F2(), Q2()));
-    if (exo) s->add_exogenous_model(std::unique_ptr<ExogenousModel>(new Exo(2)));
+struct Opt { bool exo, wna, log, rwp; std::string inner; unsigned cap, np; };
+
+template <typename SM> std::unique_ptr<SM> make_state(const Opt& o) {
+    std::unique_ptr<LinearStateModel> s;
+    if (o.wna) s.reset(new WhiteNoiseAcceleration(WhiteNoiseAcceleration::Dim::OneD, 0.1, 0.5, 3u));
+    else s.reset(new State(F2(), Q2()));
+    if (o.exo) s->add_exogenous_model(std::unique_ptr<ExogenousModel>(new Exo(2)));
     return std::unique_ptr<SM>(s.release());
 }
 
-// KF-based Gaussian filter in the style of test_KF
-struct KF : public GaussianFilter {
+std::unique_ptr<GaussianPrediction> gpred(const std::string& k, const Opt& o) {
+    if (k == "kf" || k == "sukf") return std::unique_ptr<GaussianPrediction>(new KFPrediction(make_state<LinearStateModel>(o)));
+    if (k == "ukfa") return std::unique_ptr<GaussianPrediction>(new UKFPrediction(make_state<AdditiveStateModel>(o), 1.0, 2.0, 0.0));
+    std::unique_ptr<StateModel> g(new GenState(F2(), Q2()));
+    if (o.exo) g->add_exogenous_model(std::unique_ptr<ExogenousModel>(new Exo(2)));
+    return std::unique_ptr<GaussianPrediction>(new UKFPrediction(std::move(g), 1.0, 2.0, 0.0));
+}
+
+std::unique_ptr<GaussianCorrection> gcorr(const std::string& k) {
+    if (k == "kf") return std::unique_ptr<GaussianCorrection>(new KFCorrection(std::unique_ptr<LinearMeasurementModel>(new Meas(H2(), R1()))));
+    if (k == "ukfa") return std::unique_ptr<GaussianCorrection>(new UKFCorrection(std::unique_ptr<AdditiveMeasurementModel>(new Meas(H2(), R1())), 1.0, 2.0, 0.0));
+    if (k == "sukf") return std::unique_ptr<GaussianCorrection>(new SUKFCorrection(std::unique_ptr<AdditiveMeasurementModel>(new Meas(H2(), R1())), 1.0, 2.0, 0.0, 1, false));
+    return std::unique_ptr<GaussianCorrection>(new UKFCorrection(std::unique_ptr<MeasurementModel>(new GenMeas(H2(), R1())), 1.0, 2.0, 0.0));
+}
+
+// Gaussian filter in the style of test_KF / test_UKF
+struct GF : public GaussianFilter {
     Gaussian pred_, corr_;
     unsigned cap_;
-    KF(bool exo, unsigned cap)
-        : GaussianFilter(std::unique_ptr<GaussianPrediction>(new KFPrediction(make_state<LinearStateModel>(exo))),
-                         std::unique_ptr<GaussianCorrection>(new KFCorrection(std::unique_ptr<LinearMeasurementModel>(new Meas(H2(), R1()))))),
-          pred_(2), corr_(2), cap_(cap) {
+    GF(const std::string& k, const Opt& o) : GaussianFilter(gpred(k, o), gcorr(k)), pred_(2), corr_(2), cap_(o.cap) {
         corr_.mean() << 0.2, 0.1;
         corr_.covariance() = MatrixXd::Identity(2, 2);
     }
@@ -91,27 +167,41 @@ struct KF : public GaussianFilter {
         prediction().predict(corr_, pred_);
         correction().freeze_measurements();
         correction().correct(pred_, corr_);
+        correction().getLikelihood();
+        log();
     }
+    std::vector<std::string> log_file_names(const std::string& folder, const std::string& prefix) override { return {folder + "/" + prefix + "_mean"}; }
+    void log() override { logger(corr_.mean().transpose()); }
 };
 
-// bootstrap SIS
 struct PF : public SIS {
     unsigned cap_;
-    PF(bool exo, unsigned cap, unsigned np)
-        : SIS(np, 2, std::unique_ptr<ParticleSetInitialization>(new Init()),
-              std::unique_ptr<PFPrediction>(new DrawParticles(make_state<StateModel>(exo))),
-              std::unique_ptr<PFCorrection>(new BootstrapCorrection(std::unique_ptr<MeasurementModel>(new Meas(H2(), R1())),
-                                                                    std::unique_ptr<LikelihoodModel>(new GaussianLikelihood()))),
-              std::unique_ptr<Resampling>(new Resampling(1))),
-          cap_(cap) {}
+    static std::unique_ptr<PFPrediction> pred(const std::string& k, const Opt& o) {
+        if (k == "sis") return std::unique_ptr<PFPrediction>(new DrawParticles(make_state<StateModel>(o)));
+        return std::unique_ptr<PFPrediction>(new GPFPrediction(gpred(o.inner, o)));
+    }
+    static std::unique_ptr<PFCorrection> corr(const std::string& k, const Opt& o) {
+        if (k == "sis") return std::unique_ptr<PFCorrection>(new BootstrapCorrection(std::unique_ptr<MeasurementModel>(new Meas(H2(), R1())),
+                                                                                        std::unique_ptr<LikelihoodModel>(new GaussianLikelihood())));
+        return std::unique_ptr<PFCorrection>(new GPFCorrection(std::unique_ptr<LikelihoodModel>(new GaussianLikelihood()), gcorr(o.inner == "ukf" ? "ukfa" : o.inner),
+                                                               std::unique_ptr<StateModel>(new State(F2(), Q2())), 7u));
+    }
+    static std::unique_ptr<Resampling> res(const Opt& o) {
+        if (o.rwp) return std::unique_ptr<Resampling>(new ResamplingWithPrior(std::unique_ptr<ParticleSetInitialization>(new Init()), 0.5, 5u));
+        return std::unique_ptr<Resampling>(new Resampling(1));
+    }
+    PF(const std::string& k, const Opt& o)
+        : SIS(o.np, 2, std::unique_ptr<ParticleSetInitialization>(new Init()), pred(k, o), corr(k, o), res(o)), cap_(o.cap) {}
     bool run_condition() override { return step_number() < cap_; }
 };
 
 struct Result { long final_step = 0, executed = 0, max_step = 0, running_seen = 0; };
 
-template <typename Filter> Result drive(Filter& f, const std::vector<std::string>& cmds) {
+template <typename Filter> Result drive(Filter& f, const std::vector<std::string>& cmds, const Opt& o) {
     Result r;
     bool waited = false, torn = false;
+    const std::string dir = "/tmp/C10_logs_" + std::to_string(static_cast<long>(getpid()));
+    if (o.log) { std::string c = "mkdir -p " + dir; if (std::system(c.c_str()) != 0) std::exit(4); f.enable_log(dir, "c10"); }
     f.boot();
     auto exec = [&](const std::string& c) {
         if (waited) return;
@@ -122,6 +212,8 @@ template <typename Filter> Result drive(Filter& f, const std::vector<std::string
         else if (c == "step") { vf::Entry e("FilteringAlgorithm::step_number"); long s = f.step_number(); if (s > r.max_step) r.max_step = s; }
         else if (c == "isrun") { vf::Entry e("FilteringAlgorithm::is_running"); if (f.is_running()) r.running_seen++; }
         else if (c == "yield") { std::this_thread::yield(); }
+        else if (c == "enlog") { f.enable_log(dir, "c10"); }
+        else if (c == "dislog") { f.disable_log(); }
         else if (c == "wait") { if (torn) { vf::Entry e("FilteringAlgorithm::wait"); f.wait(); waited = true; } }
         else if (c.compare(0, 6, "sleep:") == 0) { std::this_thread::sleep_for(std::chrono::microseconds(std::stol(c.substr(6)))); }
         else if (c.compare(0, 5, "skip:") == 0) {
@@ -137,6 +229,7 @@ template <typename Filter> Result drive(Filter& f, const std::vector<std::string
         exec("wait");
     }
     r.final_step = f.step_number();
+    if (o.log) { f.disable_log(); std::string c = "rm -rf " + dir; if (std::system(c.c_str()) != 0) std::exit(4); }
     return r;
 }
 
@@ -145,11 +238,12 @@ template <typename Filter> Result drive(Filter& f, const std::vector<std::string
 int main() {
     vf::Case c;
     while (vf::read_case(std::cin, c)) {
-        const bool exo = c.mi("exo", 0) != 0;
-        const unsigned cap = static_cast<unsigned>(c.mi("cap", 100000));
+        Opt o;
+        o.exo = c.mi("exo", 0) != 0; o.wna = c.m("model", "lti") == "wna"; o.log = c.mi("log", 0) != 0; o.rwp = c.mi("rwp", 0) != 0;
+        o.inner = c.m("inner", "kf"); o.cap = static_cast<unsigned>(c.mi("cap", 100000)); o.np = static_cast<unsigned>(c.mi("np", 12));
         Result r;
-        if (c.kind == "kf") { KF f(exo, cap); r = drive(f, c.word("cmds")); }
-        else { PF f(exo, cap, static_cast<unsigned>(c.mi("np", 20))); r = drive(f, c.word("cmds")); }
+        if (c.kind == "sis" || c.kind == "gpf") { PF f(c.kind, o); r = drive(f, c.word("cmds"), o); }
+        else { GF f(c.kind, o); r = drive(f, c.word("cmds"), o); }
         vf::out_begin(c.id);
         vf::out_int("final_step", r.final_step);
         vf::out_int("executed", r.executed);
